@@ -107,17 +107,9 @@ func (z *ZodSet[T, R]) MustParse(input any, ctx ...*core.ParseContext) R {
 
 // StrictParse validates input with compile-time type safety.
 func (z *ZodSet[T, R]) StrictParse(input map[T]struct{}, ctx ...*core.ParseContext) (R, error) {
-	cv := convertToSetConstraintType[T, R](input)
-
-	return engine.ParseComplexStrict[map[T]struct{}, R](
-		cv,
-		&z.internals.ZodTypeInternals,
-		core.ZodTypeSet,
-		z.extractForEngine,
-		z.extractPtrForEngine,
-		z.validateForEngine,
-		ctx...,
-	)
+	// StrictParse must answer exactly what Parse answers: the statically typed input is a valid
+	// Parse input, so run the one pipeline.
+	return z.Parse(input, ctx...)
 }
 
 // MustStrictParse validates input with type safety and panics on error.
